@@ -6,6 +6,7 @@ assess_costs.py as repaired by the `fix:` commit 0eef720 (memo cleared when the 
 the original code violated the history clause, known_findings.json F02).
 -/
 import Paroxy.Proofs.Costs
+import Paroxy.Proofs.Imported
 namespace Paroxy.Props.C07
 open Paroxy Paroxy.Filter Paroxy.Costs
 
@@ -125,5 +126,28 @@ example : IsLongest [codesOf "a", codesOf "a/b"] (splitOn 47 (codesOf "a/b/c")) 
   refine ⟨by decide +kernel, Or.inr (by decide +kernel), fun s h1 h2 => ?_⟩
   have : (splitOn 47 (codesOf "a/b/c")).length = 3 := by decide +kernel
   omega
+
+/-- The records `programCost` sums over (`C07_program`): on a well-formed stored database,
+`add_imported_taxa` succeeds and the record of every program `p` then has pairwise distinct taxa,
+which are exactly its own taxa and the non-`meta/` taxa of the programs it imports, directly or
+not (`db.Exp p q`: `p` is listed in `exportations[q]`, which stores the transitive closure). -/
+theorem C07_program_taxa (db : DB) (wf : db.WF) :
+    ∃ progs, addImported db = some progs ∧
+      ∀ p rec', dictGet? progs p = some rec' → ∃ rec, dictGet? db.programs p = some rec ∧
+        (rec'.map (·.1)).Nodup ∧
+        ∀ t, t ∈ rec'.map (·.1) ↔ t ∈ rec.map (·.1) ∨
+          (isMeta t = false ∧ ∃ q recq, db.Exp p q ∧ dictGet? db.programs q = some recq ∧
+            t ∈ recq.map (·.1)) :=
+  let ⟨progs, h1, _, _, h4⟩ := addImported_spec db wf ⟨fun _ _ => false, fun _ _ => false⟩
+  ⟨progs, h1, fun p rec' h => let ⟨rec, e, _, nd, ht⟩ := h4 p rec' h; ⟨rec, e, nd, ht⟩⟩
+
+-- Non-vacuity: in `exampleDB` (two programs, `b.py` imports `a.py`, which features `x` and
+-- `meta/m`; `exampleDB_wf : exampleDB.WF`) the record of `b.py` becomes `{y, x}`: with nothing
+-- imparted, its linear cost is 2 (1 for `y`, 1 for the imported `x`, nothing for `meta/m`).
+example : ∃ progs, addImported exampleDB = some progs ∧
+    ((dictGet? progs [98, 46, 112, 121]).map fun rec => rec.map (·.1)) = some [[121], [120]] ∧
+    ((dictGet? progs [98, 46, 112, 121]).map (programCost .linear [])) = some 2 := by
+  obtain ⟨progs, h, _⟩ := C07_program_taxa exampleDB exampleDB_wf
+  exact ⟨progs, h, by cases h; decide +kernel, by cases h; decide +kernel⟩
 
 end Paroxy.Props.C07
